@@ -144,6 +144,8 @@ def waiters_get_inserted(r, F):
 
 def run(chk, F):
     chk.run_rule("C11.close-alias", "the close flag stored in the in-flight table and the one given to the fetch task are one allocation", 1, close_alias, F)
+    from rules import C17
+    chk.run_rule("C11.probe-eq", "the in-flight table (and every other probe) is looked up by full key equality: an insert takes over the fetch of ITS key only", 9, C17.probe_eq, F)
     chk.run_rule("C11.take-closes", "take / fetch_or_take set close=true before handing out the waiters", 2, take_closes, F)
     chk.run_rule("C11.waiters-get-inserted", "an insert answers the waiters it takes with the inserted record, on every path of emplace", 2, waiters_get_inserted, F)
     chk.run_rule("C11.fetch-checks", "RawFetch::poll tests the close flag before polling either fetch; closed => returns without inserting", 2, fetch_checks, F)
